@@ -253,7 +253,7 @@ def _pred_text(pred: str, start: str) -> str:
 
 
 def run_shard(ctx: Any) -> None:
-    n = 25 if ctx.tier == "quick" else 600
+    n = 40 if ctx.tier == "quick" else 600
 
     @given(ingredients())
     def test(ing: dict[str, Any]) -> None:
